@@ -284,6 +284,35 @@ class _SkipNumeric(Exception):
     pass
 
 
+class _time_cap:  # noqa: N801
+    """Wall-clock cap for one high-precision evaluation (main thread only; a no-op elsewhere)."""
+
+    def __init__(self, seconds: int):
+        self.seconds = seconds
+        self.armed = False
+
+    def _fire(self, *_):
+        raise TimeoutError("high-precision evaluation exceeded its time cap")
+
+    def __enter__(self):
+        import signal
+        import threading
+
+        if threading.current_thread() is threading.main_thread():
+            self.old = signal.signal(signal.SIGALRM, self._fire)
+            signal.alarm(self.seconds)
+            self.armed = True
+        return self
+
+    def __exit__(self, *exc):
+        import signal
+
+        if self.armed:
+            signal.alarm(0)
+            signal.signal(signal.SIGALRM, self.old)
+        return False
+
+
 def api_clause(m, r, renames: dict, changed: dict, do_pickle: bool = True) -> list[dict]:
     """Round-trip clause (HARDENING rule 8): the result is a HelicityModel of the same shape whose containers
     behave like the original's — field types, reaction_info, ParameterValues lookup by symbol / name / index,
@@ -501,14 +530,19 @@ def numeric_clause(m, r, mp, rng, n_events: int = 4) -> dict:
     idx = [i for i in np.flatnonzero(ok) if abs(out_m[i] - out_r[i]) > 1e-12 * max(abs(out_m[i]), abs(out_r[i]), 1e-300)]
     for i in idx:
         def hp(expr, args, kin_vals, pars):
-            sub = {}
-            for a in args:
-                sub[a] = sp.sympify(complex(kin_vals[a][i])) if a in kin_vals else sp.sympify(complex(pars[a]))
-            return complex(sp.N(expr.xreplace(sub), 40))
+            # exact rational inputs (the float64 values as they are): evalf then raises its working precision until
+            # 40 digits of the RESULT are right, whatever cancels on the way (defaults like 1e-300 next to 10**20
+            # need hundreds of digits); with Float inputs the precision would be fixed and the order of an Add matter
+            def exact(z):
+                z = complex(z)
+                return sp.Rational(z.real) + sp.I * sp.Rational(z.imag) if z.imag else sp.Rational(z.real)
+            sub = {a: exact(kin_vals[a][i]) if a in kin_vals else exact(pars[a]) for a in args}
+            return complex(sp.N(expr.xreplace(sub), 40, maxn=2000))
         try:
-            a = hp(expr_m, args_m, kin_m, par_m)
-            b = hp(expr_r, args_r, kin_r, par_r)
-        except Exception:  # noqa: BLE001
+            with _time_cap(30):
+                a = hp(expr_m, args_m, kin_m, par_m)
+                b = hp(expr_r, args_r, kin_r, par_r)
+        except Exception:  # noqa: BLE001  not evaluable (zoo, overflow) or not within the time cap: no verdict on this point
             continue
         if not (math.isfinite(abs(a)) and math.isfinite(abs(b))):
             continue
